@@ -78,6 +78,46 @@ Arguments ttl_of : simpl never.
 Arguments is_expired : simpl never.
 Arguments sec : simpl never.
 
+Lemma el_of_list_del_gen l t k v t' k' v' :
+  el_of_list (filter (fun e : ekey * eval => match e with ((t1, k1, v1, _), _) => negb (ty_eqb t t1 && bytes_eqb k k1 && (v =? v1)) end) l) t' k' v' =
+  if gen_eqb (t', k', v') (t, k, v) then [] else el_of_list l t' k' v'.
+Proof.
+  induction l as [|[[[[t1 k1] v1] sb1] x] l IH].
+  - cbn [filter el_of_list flat_map aget]. now destruct (gen_eqb (t', k', v') (t, k, v)).
+  - cbn [filter]. change (ty_eqb t t1 && bytes_eqb k k1 && (v =? v1)) with (gen_eqb (t, k, v) (t1, k1, v1)).
+    destruct (gen_eqb (t, k, v) (t1, k1, v1)) eqn:E; cbn [negb].
+    + rewrite IH. apply gen_eqb_eq in E. inversion E; subst t1 k1 v1.
+      cbn [el_of_list flat_map]. fold (el_of_list l t' k' v').
+      change (ty_eqb t' t && bytes_eqb k' k && (v' =? v)) with (gen_eqb (t', k', v') (t, k, v)).
+      destruct (gen_eqb (t', k', v') (t, k, v)); reflexivity.
+    + cbn [el_of_list flat_map]. fold (el_of_list l t' k' v').
+      fold (el_of_list (filter (fun e : ekey * eval => match e with ((t2, k2, v2, _), _) => negb (ty_eqb t t2 && bytes_eqb k k2 && (v =? v2)) end) l) t' k' v').
+      rewrite IH.
+      change (ty_eqb t' t1 && bytes_eqb k' k1 && (v' =? v1)) with (gen_eqb (t', k', v') (t1, k1, v1)).
+      destruct (gen_eqb (t', k', v') (t, k, v)) eqn:G; auto.
+      destruct (gen_eqb (t', k', v') (t1, k1, v1)) eqn:G1; auto.
+      apply gen_eqb_eq in G, G1. rewrite G in G1. rewrite G1, gen_eqb_refl in E. discriminate.
+Qed.
+Lemma el_of_del_gen_eq s t k v t' k' v' :
+  el_of (el_del_gen s t k v) t' k' v' = if gen_eqb (t', k', v') (t, k, v) then [] else el_of s t' k' v'.
+Proof. rewrite !el_of_unfold. unfold el_del_gen. cbn [elems]. apply el_of_list_del_gen. Qed.
+Lemma el_get_del_gen s t k v t' k' v' sb' :
+  el_get (el_del_gen s t k v) t' k' v' sb' = if gen_eqb (t', k', v') (t, k, v) then None else el_get s t' k' v' sb'.
+Proof.
+  unfold el_get, el_del_gen. cbn [elems]. induction (elems s) as [|[[[[t1 k1] v1] sb1] x] l IH].
+  - cbn [filter el_of_list flat_map aget]. now destruct (gen_eqb (t', k', v') (t, k, v)).
+  - cbn [filter]. change (ty_eqb t t1 && bytes_eqb k k1 && (v =? v1)) with (gen_eqb (t, k, v) (t1, k1, v1)).
+    destruct (gen_eqb (t, k, v) (t1, k1, v1)) eqn:E; cbn [negb aget].
+    + rewrite IH. apply gen_eqb_eq in E. inversion E; subst t1 k1 v1.
+      destruct (gen_eqb (t', k', v') (t, k, v)) eqn:G; auto.
+      destruct (ekey_eqb (t', k', v', sb') (t, k, v, sb1)) eqn:X; auto.
+      apply ekey_eqb_eq in X. inversion X; subst. now rewrite gen_eqb_refl in G.
+    + rewrite IH. destruct (ekey_eqb (t', k', v', sb') (t1, k1, v1, sb1)) eqn:X; auto.
+      apply ekey_eqb_eq in X. inversion X; subst t1 k1 v1 sb1.
+      destruct (gen_eqb (t', k', v') (t, k, v)) eqn:G; auto.
+      apply gen_eqb_eq in G. rewrite G, gen_eqb_refl in E. discriminate.
+Qed.
+
 (* ---------- the relation "equal except for dead content" ---------- *)
 Section Rel.
   Variables (T : Z) (t0 : ty) (k0 : bytes) (g : Z).
@@ -175,6 +215,15 @@ Section Rel.
   Lemma R_fold_el_del {A} s1 s2 t k v (f : A -> skey) l : R s1 s2 -> (t, k, v) <> (t0, k0, g) ->
     R (fold_left (fun st a => el_del st t k v (f a)) l s1) (fold_left (fun st a => el_del st t k v (f a)) l s2).
   Proof. revert s1 s2. induction l as [|a l IH]; intros s1 s2 H Hn; simpl; auto. apply IH; auto. now apply R_el_del. Qed.
+
+  Lemma R_el_del_gen s1 s2 t k v : R s1 s2 -> (t, k, v) <> (t0, k0, g) -> R (el_del_gen s1 t k v) (el_del_gen s2 t k v).
+  Proof.
+    intros [A B C D E F Z1 Z2 G] Hn. constructor; auto.
+    - intros t' k' v' sb' Hn'. rewrite !el_get_del_gen. destruct (gen_eqb _ _); auto.
+    - intros t' k' v' Hn'. rewrite !el_of_del_gen_eq. destruct (gen_eqb _ _); auto.
+    - intros sb'. rewrite el_get_del_gen. destruct (gen_eqb _ _); auto.
+    - intros sb'. rewrite el_get_del_gen. destruct (gen_eqb _ _); auto.
+  Qed.
 
   (* one-sided no-ops *)
   Lemma R_meta_del_none_r s1 s2 t k : R s1 s2 -> meta_get s2 t k = None -> R s1 (meta_del s2 t k).
